@@ -1,40 +1,278 @@
-(* C03 (piece level) -- threading the tokeniser state through `tokenise` calls on consecutive groups of bars.
-   Part 1: `tokenise_many` (the threaded calls of the model's own `tokenise`, defined in C19_tokenise.v) is the
-   core-level `chunked` run on the front-end outputs of the calls, hence (C03_chunked_tokens) the single core run on
-   the glued event list. *)
-From Coq Require Import ZArith List Bool Lia Permutation.
+(* C03 (piece level), final part -- a piece given bar by bar (every bar: its signature and the content of every track,
+   the relative list of the bar being `mk_ts 0 num den 0 false :: content` as built by the Bar constructor), any
+   partition of the bar sequence into consecutive call groups: the threaded `tokenise` calls and the single call on the
+   whole piece detokenise to the same notes. *)
+From Coq Require Import ZArith List Bool Lia Permutation Sorted.
 From Model Require Import Base Util Seq Pairing Tok.
-From Proofs Require Import C01_rest C01_proofs C03_proofs.
-From Proofs Require C19_tokenise.
+From Proofs Require Import C05_closest C04_sort C04_proofs C07_proofs.
+From Proofs Require Import C01_frontend_sig C01_frontend_pipe C01_frontend_pair C01_rest C01_proofs C01_frontend C03_proofs.
+From Proofs Require Import C03_piece_norm C03_piece_fe C03_piece_bars C03_piece_clock C03_piece_join C03_piece_groups.
 Import ListNotations.
 Open Scope Z_scope.
 
-Notation tokenise_many := C19_tokenise.tokenise_many.
+(* ================================================================ bars *)
+(* one bar of the piece: numerator, denominator, and the content of every track (without the leading signature) *)
+Definition bar_col : Set := (Z * Z * list (list msg))%type.
+Definition bc_sig (b : bar_col) : Z * Z := fst b.
+Definition bc_cont (b : bar_col) : list (list msg) := snd b.
+Definition bc_cap (c : cfg) (b : bar_col) : Z := bar_cap c (fst (bc_sig b)) (snd (bc_sig b)).
+(* the relative list of track i of the bar, as the Bar constructor leaves it *)
+Definition bar_rel (b : bar_col) (i : nat) : list msg :=
+  mk_ts 0 (fst (bc_sig b)) (snd (bc_sig b)) 0 false :: nth i (bc_cont b) [].
+(* track i of a run of bars, and the lists handed to `tokenise` for the run *)
+Definition track_of (cols : list bar_col) (i : nat) : list msg := concat (map (fun b => bar_rel b i) cols).
+Definition join (nt : nat) (cols : list bar_col) : list (list msg) := map (track_of cols) (List.seq 0%nat nt).
+Definition sigs_of (cols : list bar_col) : list (Z * Z) := map bc_sig cols.
 
-(* every call hands one list per configured track *)
-Definition calls_len (c : cfg) (calls : list (list (list msg))) : bool :=
-  forallb (fun call => lenZ call =? c_ntracks c) calls.
+(* the content of one track of a bar: non-negative waits, only WAIT / NOTE_ON / NOTE_OFF messages, per pitch the
+   notes alternate on / off with positive durations and are all closed (they end within the bar), total duration = the
+   bar's capacity, every note valid for the tokeniser *)
+Definition content_ok (g : Z) (c : cfg) (cap : Z) (r : list msg) : bool :=
+  wfr r && forallb (fun m => is_wait m || is_note m) r &&
+  forallb (fun m => negb (is_note m) || sig_ok (psig (m_note m) 0 r)) r &&
+  (dur_rel r =? cap) && forallb (note_ok g c) (notes_of r).
+Definition bar_ok (g : Z) (c : cfg) (nt : nat) (b : bar_col) : bool :=
+  Nat.eqb (length (bc_cont b)) nt && sig_valid g c (bc_sig b) && forallb (content_ok g c (bc_cap c b)) (bc_cont b).
+(* no message at the bar's last instant: every track of the bar ends with a positive wait *)
+Definition open_bar (c : cfg) (b : bar_col) : bool :=
+  forallb (fun r => forallb (fun tm => fst tm <? bc_cap c b) (timed 0 r)) (bc_cont b).
+Definition dummy_bar : bar_col := (0, 0, []).
+(* a call group: at least one bar, every bar valid, the last one open-ended *)
+Definition bars_group_ok (g : Z) (c : cfg) (nt : nat) (cols : list bar_col) : bool :=
+  negb (match cols with [] => true | _ => false end) && forallb (bar_ok g c nt) cols && open_bar c (last cols dummy_bar).
 
-Lemma tokenise_many_chunked c : forall calls chs st,
-  calls_len c calls = true -> mapM tok_frontend calls = Ok chs ->
-  tokenise_many c st calls = chunked c st chs.
+Lemma content_ok_parts g c cap r : content_ok g c cap r = true ->
+  wfr r = true /\ (forall m, In m r -> is_wait m || is_note m = true) /\ (forall p, sig_ok (psig p 0 r) = true) /\
+  dur_rel r = cap /\ (forall x, In x (notes_of r) -> note_ok g c x = true).
 Proof.
-  induction calls as [|call calls IH]; intros chs st Hl Hf.
-  - cbn [mapM] in Hf. injection Hf as <-. reflexivity.
-  - cbn [calls_len forallb] in Hl. apply andb_prop in Hl. destruct Hl as [Hl1 Hl].
-    cbn [mapM] in Hf. destruct (tok_frontend call) as [evs|] eqn:E1; cbn [rbind] in Hf; [|discriminate].
-    destruct (mapM tok_frontend calls) as [chs'|] eqn:E2; cbn [rbind] in Hf; [|discriminate].
-    injection Hf as <-. cbn [C19_tokenise.tokenise_many chunked].
-    rewrite tokenise_core, Hl1. cbn [negb]. rewrite E1. cbn [rbind].
-    destruct (core c st evs) as [[t1 st1]|]; cbn [rbind fst snd]; [|reflexivity].
-    rewrite (IH chs' st1 Hl eq_refl). reflexivity.
+  unfold content_ok. intros H. apply andb_prop in H. destruct H as [H H5]. apply andb_prop in H. destruct H as [H H4].
+  apply andb_prop in H. destruct H as [H H3]. apply andb_prop in H. destruct H as [H1 H2].
+  rewrite forallb_forall in H2, H5. apply Z.eqb_eq in H4.
+  split; [exact H1|]. split; [exact H2|]. split; [|split; [exact H4|exact H5]].
+  intros n. rewrite forallb_forall in H3.
+  destruct (existsb (fun m => is_note m && (m_note m =? n)) r) eqn:E.
+  - apply existsb_exists in E. destruct E as (m & Hm & E). apply andb_prop in E. destruct E as [E1 E2].
+    apply Z.eqb_eq in E2. subst n. specialize (H3 m Hm). now rewrite E1 in H3.
+  - rewrite psig_nil; [reflexivity|]. intros m Hm Hn Heq.
+    assert (existsb (fun m => is_note m && (m_note m =? n)) r = true); [|congruence].
+    apply existsb_exists. exists m. split; [exact Hm|]. rewrite Hn. now apply Z.eqb_eq.
 Qed.
 
-(* Target 1: tokens and final state of the threaded calls = those of ONE core run on the glued events *)
-Theorem C03_tokenise_chunked g c calls chs :
-  valid_cfg g c = true -> calls_len c calls = true -> mapM tok_frontend calls = Ok chs ->
-  chunks_ok g c (rclk0 c) chs = true ->
-  tokenise_many c (tstate0 c) calls = core c (tstate0 c) (glue 0 chs).
+Lemma no_ts_content r m : (forall x, In x r -> is_wait x || is_note x = true) -> In m r -> is_ts m = false.
 Proof.
-  intros Hc Hl Hf Hok. rewrite (tokenise_many_chunked c calls chs _ Hl Hf). now apply C03_chunked_tokens with g.
+  intros H Hm. specialize (H m Hm). destruct (is_ts m) eqn:E; [|reflexivity].
+  rewrite (ts_not_wait m E), (ts_not_note m E) in H. discriminate.
 Qed.
+
+Section Track.
+  Variables (g : Z) (c : cfg) (nt : nat) (i : nat).
+  Hypothesis Hg : 0 < g.
+  Hypothesis Hi : (i < nt)%nat.
+
+  Lemma bar_content b : bar_ok g c nt b = true ->
+    sig_valid g c (bc_sig b) = true /\ 0 < bc_cap c b /\ (g | bc_cap c b) /\ content_ok g c (bc_cap c b) (nth i (bc_cont b) []) = true.
+  Proof.
+    unfold bar_ok. intros H. apply andb_prop in H. destruct H as [H H3]. apply andb_prop in H. destruct H as [H1 H2].
+    apply Nat.eqb_eq in H1. split; [exact H2|].
+    pose proof H2 as H2'. unfold sig_valid in H2'. apply andb_prop in H2'. destruct H2' as [H2' V5].
+    apply andb_prop in H2'. destruct H2' as [_ V4]. apply Z.ltb_lt in V4. apply divb_true in V5; [|exact Hg].
+    split; [exact V4|]. split; [exact V5|]. rewrite forallb_forall in H3. apply H3. apply nth_In. lia.
+  Qed.
+
+  Lemma bar_rel_dur b : bar_ok g c nt b = true -> dur_rel (bar_rel b i) = bc_cap c b.
+  Proof.
+    intros H. destruct (bar_content b H) as (_ & _ & _ & Hc). destruct (content_ok_parts _ _ _ _ Hc) as (_ & _ & _ & Hd & _).
+    unfold bar_rel. rewrite C04_proofs.dur_rel_cons. cbn. exact Hd.
+  Qed.
+
+  Lemma bar_rel_wfr b : bar_ok g c nt b = true -> wfr (bar_rel b i) = true.
+  Proof.
+    intros H. destruct (bar_content b H) as (_ & _ & _ & Hc). destruct (content_ok_parts _ _ _ _ Hc) as (Hw & _).
+    unfold bar_rel. cbn [wfr forallb]. fold (wfr (nth i (bc_cont b) [])). now rewrite Hw.
+  Qed.
+
+  Lemma bar_rel_sig b p : bar_ok g c nt b = true -> sig_ok (psig p 0 (bar_rel b i)) = true.
+  Proof.
+    intros H. destruct (bar_content b H) as (_ & _ & _ & Hc). destruct (content_ok_parts _ _ _ _ Hc) as (_ & _ & Hs & _).
+    unfold bar_rel. cbn [psig]. apply Hs.
+  Qed.
+
+  Lemma bar_rel_notes b : notes_of (bar_rel b i) = notes_of (nth i (bc_cont b) []).
+  Proof. reflexivity. Qed.
+
+  Lemma track_dur cols : forallb (bar_ok g c nt) cols = true -> dur_rel (track_of cols i) = bars_dur c (sigs_of cols).
+  Proof.
+    induction cols as [|b cols IH]; intros H; [reflexivity|]. cbn [forallb] in H. apply andb_prop in H. destruct H as [Hb H].
+    unfold track_of. cbn [map concat sigs_of bars_dur]. rewrite C04_proofs.dur_rel_app, (bar_rel_dur b Hb).
+    fold (track_of cols i). fold (sigs_of cols). rewrite (IH H). reflexivity.
+  Qed.
+
+  Lemma track_wfr cols : forallb (bar_ok g c nt) cols = true -> wfr (track_of cols i) = true.
+  Proof.
+    induction cols as [|b cols IH]; intros H; [reflexivity|]. cbn [forallb] in H. apply andb_prop in H. destruct H as [Hb H].
+    unfold track_of. cbn [map concat]. rewrite wfr_app, (bar_rel_wfr b Hb). apply (IH H).
+  Qed.
+
+  Lemma track_msgs cols m : forallb (bar_ok g c nt) cols = true -> In m (track_of cols i) -> gmsg_ok m = true.
+  Proof.
+    induction cols as [|b cols IH]; intros H Hm; [destruct Hm|]. cbn [forallb] in H. apply andb_prop in H. destruct H as [Hb H].
+    unfold track_of in Hm. cbn [map concat] in Hm. apply in_app_or in Hm. destruct Hm as [Hm|Hm]; [|now apply IH].
+    unfold bar_rel in Hm. destruct Hm as [<-|Hm]; [reflexivity|].
+    destruct (bar_content b Hb) as (_ & _ & _ & Hc). destruct (content_ok_parts _ _ _ _ Hc) as (_ & Hk & _).
+    specialize (Hk m Hm). unfold gmsg_ok. now rewrite Hk.
+  Qed.
+
+  (* every pitch of a run of bars is well formed *)
+  Lemma track_sig cols p : forallb (bar_ok g c nt) cols = true -> sig_ok (psig p 0 (track_of cols i)) = true.
+  Proof.
+    induction cols as [|b cols IH]; intros H; [reflexivity|]. cbn [forallb] in H. apply andb_prop in H. destruct H as [Hb H].
+    unfold track_of. cbn [map concat]. fold (track_of cols i). rewrite psig_app, Z.add_0_l.
+    apply sig_ok_app; [now apply bar_rel_sig| |].
+    - rewrite <- (Z.add_0_l (dur_rel (bar_rel b i))), psig_shift, sig_ok_shift. now apply IH.
+    - intros x y Hx Hy. pose proof (psig_upper p _ (bar_rel_wfr b Hb) 0 x Hx) as Bx.
+      pose proof (psig_upper p _ (track_wfr cols H) _ y Hy) as By. lia.
+  Qed.
+
+  Lemma track_gtrack cols : forallb (bar_ok g c nt) cols = true -> gtrack_ok (track_of cols i) = true.
+  Proof.
+    intros H. unfold gtrack_ok. rewrite (track_wfr cols H). cbn [andb]. apply andb_true_intro. split.
+    - apply forallb_forall. intros m Hm. now apply track_msgs with cols.
+    - apply forallb_forall. intros m _. rewrite (track_sig cols (m_note m) H). apply orb_true_r.
+  Qed.
+
+  (* a time signature exactly at every bar start *)
+  Lemma track_tsv cols : forallb (bar_ok g c nt) cols = true -> forall cur,
+    tsv (ev_rel_from cur (track_of cols i)) = bar_tsl c cur (sigs_of cols).
+  Proof.
+    induction cols as [|b cols IH]; intros H cur; [reflexivity|]. cbn [forallb] in H. apply andb_prop in H. destruct H as [Hb H].
+    unfold track_of. cbn [map concat sigs_of bar_tsl]. fold (track_of cols i). fold (sigs_of cols).
+    rewrite ev_rel_from_app, tsv_app, (bar_rel_dur b Hb), (IH H). f_equal.
+    unfold bar_rel. cbn [ev_rel_from is_wait is_internal mtype_eqb mk_ts m_type mtype_rank Z.eqb Pos.eqb].
+    destruct (bar_content b Hb) as (_ & _ & _ & Hc). destruct (content_ok_parts _ _ _ _ Hc) as (_ & Hk & _).
+    change (tsv ((cur, strip_time (mk_ts 0 (fst (bc_sig b)) (snd (bc_sig b)) 0 false)) :: ev_rel_from cur (nth i (bc_cont b) [])))
+      with ((cur, fst (bc_sig b), snd (bc_sig b)) :: tsv (ev_rel_from cur (nth i (bc_cont b) []))).
+    rewrite tsv_no_ts; [reflexivity|]. intros m Hm. now apply no_ts_content with (nth i (bc_cont b) []).
+  Qed.
+
+  (* no message at the last instant of the run when the last bar is open-ended *)
+  Lemma track_open cols : cols <> [] -> forallb (bar_ok g c nt) cols = true -> open_bar c (last cols dummy_bar) = true ->
+    forall cur tm, In tm (timed cur (track_of cols i)) -> fst tm < cur + bars_dur c (sigs_of cols).
+  Proof.
+    induction cols as [|b cols IH]; intros Hne H Ho cur tm Htm; [congruence|].
+    cbn [forallb] in H. apply andb_prop in H. destruct H as [Hb H].
+    destruct (bar_content b Hb) as (_ & Hcap & _ & Hc). destruct (content_ok_parts _ _ _ _ Hc) as (Hw & _ & _ & Hd & _).
+    unfold track_of in Htm. cbn [map concat] in Htm. fold (track_of cols i) in Htm.
+    rewrite timed_app, (bar_rel_dur b Hb) in Htm. cbn [sigs_of map bars_dur]. fold (sigs_of cols). fold (bc_cap c b).
+    apply in_app_or in Htm. destruct Htm as [Htm|Htm].
+    - assert (Hpos : 0 <= bars_dur c (sigs_of cols)).
+      { apply bars_dur_nonneg. apply Forall_forall. intros nd Hnd. unfold sigs_of in Hnd. apply in_map_iff in Hnd.
+        destruct Hnd as (b' & <- & Hb'). rewrite forallb_forall in H. now destruct (bar_content b' (H b' Hb')) as (_ & Hp & _). }
+      unfold bar_rel in Htm. cbn [timed is_wait mtype_eqb mk_ts m_type mtype_rank Z.eqb Pos.eqb] in Htm.
+      destruct Htm as [<-|Htm]; [cbn [fst]; lia|].
+      destruct cols as [|b' cols'].
+      + (* the last bar: open-ended *)
+        cbn [last] in Ho. unfold open_bar in Ho. rewrite forallb_forall in Ho.
+        assert (Hin : In (nth i (bc_cont b) []) (bc_cont b)).
+        { apply nth_In. unfold bar_ok in Hb. apply andb_prop in Hb. destruct Hb as [Hb _]. apply andb_prop in Hb.
+          destruct Hb as [Hb _]. apply Nat.eqb_eq in Hb. lia. }
+        specialize (Ho _ Hin). rewrite forallb_forall in Ho.
+        rewrite <- (Z.add_0_l cur), timed_shift in Htm. apply in_map_iff in Htm. destruct Htm as (tm0 & <- & Htm0).
+        specialize (Ho _ Htm0). apply Z.ltb_lt in Ho. cbn [fst bars_dur sigs_of map]. lia.
+      + pose proof (timed_bounds _ Hw cur tm Htm) as Bd. rewrite Hd in Bd.
+        assert (0 < bars_dur c (sigs_of (b' :: cols'))).
+        { cbn [sigs_of map bars_dur]. cbn [forallb] in H. apply andb_prop in H. destruct H as [Hb' H].
+          destruct (bar_content b' Hb') as (_ & Hp' & _). fold (bc_cap c b').
+          assert (0 <= bars_dur c (map bc_sig cols')); [|lia].
+          apply bars_dur_nonneg. apply Forall_forall. intros nd Hnd. apply in_map_iff in Hnd.
+          destruct Hnd as (b'' & <- & Hb''). rewrite forallb_forall in H. now destruct (bar_content b'' (H b'' Hb'')) as (_ & Hp & _). }
+        lia.
+    - destruct cols as [|b' cols']; [destruct Htm|].
+      assert (Hlast : last (b :: b' :: cols') dummy_bar = last (b' :: cols') dummy_bar) by reflexivity.
+      rewrite Hlast in Ho. specialize (IH ltac:(discriminate) H Ho _ _ Htm). lia.
+  Qed.
+
+  (* the notes of a run of bars: those of every bar, moved to the bar's start *)
+  Fixpoint bars_notes (s : Z) (cols : list bar_col) : list note :=
+    match cols with
+    | [] => []
+    | b :: cols' => map (shiftn s) (notes_of (nth i (bc_cont b) [])) ++ bars_notes (s + bc_cap c b) cols'
+    end.
+
+  Lemma bars_notes_shift a cols : forall s, map (shiftn a) (bars_notes s cols) = bars_notes (s + a) cols.
+  Proof.
+    induction cols as [|b cols IH]; intros s; [reflexivity|]. cbn [bars_notes]. rewrite map_app, map_map, IH.
+    f_equal; [|f_equal; lia]. apply map_ext. intros x. apply shiftn_shiftn.
+  Qed.
+
+  Lemma track_notes_of cols : forallb (bar_ok g c nt) cols = true ->
+    Permutation (notes_of (track_of cols i)) (bars_notes 0 cols).
+  Proof.
+    induction cols as [|b cols IH]; intros H; [constructor|]. cbn [forallb] in H. apply andb_prop in H. destruct H as [Hb H].
+    unfold track_of. cbn [map concat bars_notes]. fold (track_of cols i).
+    eapply perm_trans; [apply notes_of_app; intros p; now apply bar_rel_sig|].
+    rewrite bar_rel_notes, (bar_rel_dur b Hb). apply Permutation_app.
+    - rewrite (map_ext (shiftn 0) (fun x => x)) by apply shiftn_0. rewrite map_id. apply Permutation_refl.
+    - eapply perm_trans; [apply Permutation_map, (IH H)|]. rewrite bars_notes_shift. apply Permutation_refl.
+  Qed.
+
+  Lemma note_ok_shift a x : (g | a) -> note_ok g c (shiftn a x) = note_ok g c x.
+  Proof.
+    intros Ha. destruct x as [[[p t] t'] v]. unfold note_ok, shiftn. rewrite (divb_shift g a t Hg Ha).
+    replace (t' + a - (t + a)) with (t' - t) by lia. reflexivity.
+  Qed.
+
+  Lemma bars_notes_ok cols : forallb (bar_ok g c nt) cols = true -> forall s x, (g | s) ->
+    In x (bars_notes s cols) -> note_ok g c x = true.
+  Proof.
+    induction cols as [|b cols IH]; intros H s x Hs Hx; [destruct Hx|]. cbn [forallb] in H. apply andb_prop in H.
+    destruct H as [Hb H]. destruct (bar_content b Hb) as (_ & _ & Hdiv & Hc).
+    destruct (content_ok_parts _ _ _ _ Hc) as (_ & _ & _ & _ & Hn).
+    cbn [bars_notes] in Hx. apply in_app_or in Hx. destruct Hx as [Hx|Hx].
+    - apply in_map_iff in Hx. destruct Hx as (x0 & <- & Hx0). rewrite note_ok_shift by exact Hs. now apply Hn.
+    - apply (IH H (s + bc_cap c b)); [|exact Hx]. now apply Z.divide_add_r.
+  Qed.
+End Track.
+
+(* ================================================================ a run of bars is a group *)
+Lemma join_nth nt cols i : (i < nt)%nat -> nth i (join nt cols) [] = track_of cols i.
+Proof.
+  intros Hi. unfold join. rewrite (nth_indep _ [] (track_of cols 0%nat)) by (rewrite map_length, seq_length; exact Hi).
+  rewrite (map_nth (track_of cols) (List.seq 0%nat nt) 0%nat i), seq_nth by exact Hi. reflexivity.
+Qed.
+
+Lemma join_In nt cols r : In r (join nt cols) -> exists i, (i < nt)%nat /\ r = track_of cols i.
+Proof.
+  unfold join. intros H. apply in_map_iff in H. destruct H as (i & <- & Hi). apply in_seq in Hi. exists i. split; [lia|reflexivity].
+Qed.
+
+Lemma bars_group g c nt cols :
+  valid_cfg g c = true -> Z.of_nat nt = c_ntracks c -> bars_group_ok g c nt cols = true ->
+  group_ok g c (sigs_of cols) (join nt cols) = true.
+Proof.
+  intros Hc Hnt H. destruct (valid_cfg_parts g c Hc) as (_ & Hg & _).
+  unfold bars_group_ok in H. apply andb_prop in H. destruct H as [H Ho]. apply andb_prop in H. destruct H as [Hne Hb].
+  assert (Hne' : cols <> []) by (destruct cols; [discriminate|discriminate]).
+  assert (Hsv : forallb (sig_valid g c) (sigs_of cols) = true).
+  { apply forallb_forall. intros nd Hnd. unfold sigs_of in Hnd. apply in_map_iff in Hnd. destruct Hnd as (b & <- & Hb').
+    rewrite forallb_forall in Hb. specialize (Hb b Hb'). unfold bar_ok in Hb. apply andb_prop in Hb. destruct Hb as [Hb _].
+    now apply andb_prop in Hb. }
+  assert (HT : 0 < bars_dur c (sigs_of cols)).
+  { pose proof (sig_valid_pos g c _ Hsv) as Hp. destruct cols as [|b cols]; [congruence|].
+    cbn [sigs_of map bars_dur] in *. inversion Hp as [|? ? H1 H2]; subst. pose proof (bars_dur_nonneg c _ H2). lia. }
+  unfold group_ok. apply andb_true_intro. split; [apply andb_true_intro; split; [apply andb_true_intro; split; [apply andb_true_intro; split|]|]|].
+  - apply Z.eqb_eq. unfold lenZ, join. rewrite map_length, seq_length. exact Hnt.
+  - now apply Z.ltb_lt.
+  - exact Hsv.
+  - apply forallb_forall. intros r Hr. destruct (join_In nt cols r Hr) as (i & Hi & ->).
+    unfold gbar_track. rewrite (track_gtrack g c nt i Hg Hi cols Hb). cbn [andb].
+    unfold ev_rel. rewrite (track_tsv g c nt i Hg Hi cols Hb 0), (track_dur g c nt i Hg Hi cols Hb), Z.eqb_refl.
+    assert (E : tsl_eqb (bar_tsl c 0 (sigs_of cols)) (bar_tsl c 0 (sigs_of cols)) = true).
+    { induction (bar_tsl c 0 (sigs_of cols)) as [|x l IH]; [reflexivity|]. cbn [tsl_eqb]. now rewrite !Z.eqb_refl, IH. }
+    rewrite E. cbn [andb]. apply forallb_forall. intros tm Htm. apply Z.ltb_lt.
+    pose proof (track_open g c nt i Hg Hi cols Hne' Hb Ho 0 tm Htm). lia.
+  - apply forallb_forall. intros r Hr. destruct (join_In nt cols r Hr) as (i & Hi & ->).
+    apply forallb_forall. intros x Hx.
+    eapply Permutation_in in Hx; [|apply (track_notes_of g c nt i Hg Hi cols Hb)].
+    apply (bars_notes_ok g c nt i Hg Hi cols Hb 0 x); [apply Z.divide_0_r|exact Hx].
+Qed.
+
